@@ -4,6 +4,7 @@ import RbV.Spec.QGram
 import RbV.Spec.KChain
 import RbV.Model.QGramIter
 import RbV.Model.QGramMatches
+import RbV.Model.QGramIndex
 /-! Driver for property C19 (line protocol → verdict).
 
 ```
@@ -115,10 +116,13 @@ def checkQuery (A : List Nat) (q mc : Nat) (text : List Nat) (qu : Query) (res :
     if res.startsWith "P!index-out-of-bounds" && oobQ then some (true, "oob-nonpow2 query " ++ res)
     else if res.startsWith "P!attempt-to-subtract-with-overflow" && negdiag then some (true, "negdiag-underflow matches " ++ res)
     else some (false, "unexpected-panic " ++ res)
-  let _ := b
   match qu with
   | .g gram =>
     let exp := qgramPositions mc gram text
+    -- mirror model of the index construction (Thm.C19.index_model_refines), run for small tables
+    let size := 2 ^ (b * q)
+    if size ≤ 1024 && qgramMatchesModel (buildIndex size mc (fwdCodes A q text)) (code b (gram.map (rank A))) ≠ exp then
+      (some (false, "BADOP index-model-vs-reference"), []) else
     if panicked then (classify false, []) else
     match parseNatList res with
     | some l => if l = exp then (none, (if exp.isEmpty then [] else ["g-hit"]) ++
